@@ -471,6 +471,44 @@ pub enum Kind {
 
 pub const KINDS: [Kind; 6] = [Kind::Valid, Kind::WrongLength, Kind::BadPrefix, Kind::BadChar, Kind::StrictChecksum, Kind::StrictLength];
 
+/// A valid-UTF-8 string with multi-byte characters whose *byte* length is one of the two
+/// accepted lengths (or near them); always malformed, and hostile to byte-offset slicing.
+pub fn non_ascii_string<V: Variant>(rng: &mut Rng) -> String {
+    let b = gen::hash_bytes(rng, V::SIZE, V::CK, V::NB, true);
+    let base = String::from_utf8(oracle::encode_text(&b, V::CK, rng.chance(2, 3))).unwrap();
+    let target = *rng.pick(&[V::LEN_STR, V::LEN_STR, V::LEN_STR - 2, V::LEN_STR + 1, V::LEN_STR - 1]);
+    let ch = *rng.pick(&['\u{e9}', '\u{20ac}', '\u{1f600}', '\u{df}', '\u{3a9}']);
+    let at = match rng.below(4) {
+        0 => 1,
+        1 => 0,
+        2 => 2,
+        _ => rng.below(base.len() as u64) as usize,
+    };
+    let mut out = String::new();
+    for (i, c) in base.chars().enumerate() {
+        if i == at {
+            out.push(ch);
+        } else {
+            out.push(c);
+        }
+    }
+    // trim or pad (ASCII) to the target byte length where possible
+    while out.len() > target {
+        let c = out.pop().unwrap();
+        if !c.is_ascii() {
+            out.push('0');
+            if out.len() > target {
+                out.pop();
+            }
+            break;
+        }
+    }
+    while out.len() < target {
+        out.push('A');
+    }
+    out
+}
+
 pub fn gen_string<V: Variant>(rng: &mut Rng, kind: Kind) -> String {
     let strict = cfg!(feature = "strict");
     let mut b = gen::hash_bytes(rng, V::SIZE, V::CK, V::NB, true);
@@ -607,8 +645,27 @@ fn c13_variant<V: Variant>(ctx: &Ctx, rep: &mut Report) {
         } else {
             (KINDS[rng.below(nk) as usize], KINDS[rng.below(nk) as usize])
         };
-        let l = gen_string::<V>(&mut rng, kl);
-        let r = if kl == Kind::Valid && kr == Kind::Valid && rng.chance(1, 4) {
+        let mut l = gen_string::<V>(&mut rng, kl);
+        if rng.chance(1, 16) {
+            l = non_ascii_string::<V>(&mut rng);
+            rep.count("compare:non_ascii_operands", 1);
+        }
+        let r = if rng.chance(1, 16) {
+            rep.count("compare:non_ascii_operands", 1);
+            non_ascii_string::<V>(&mut rng)
+        } else if kl == Kind::Valid && l.is_ascii() && rng.chance(1, 6) {
+            // the very same digits as the left operand, re-spelled: other letter case, prefix
+            // dropped / added / damaged ("t1", "T2", "1T")
+            rep.count("compare:same_digits_respelled", 1);
+            let digits: String = if l.len() == V::LEN_STR { l[2..].to_string() } else { l.clone() };
+            let digits: String = match rng.below(3) {
+                0 => digits.to_ascii_lowercase(),
+                1 => digits.to_ascii_uppercase(),
+                _ => digits,
+            };
+            let prefix = *rng.pick(&["T1", "", "t1", "T2", "1T", "T1", ""]);
+            format!("{}{}", prefix, digits)
+        } else if kl == Kind::Valid && kr == Kind::Valid && rng.chance(1, 4) {
             // the same hash spelled differently
             let a = oracle::decode_text(l.as_bytes(), V::SIZE, V::CK, V::NB, 0, false).unwrap_or_default();
             if a.len() == V::SIZE {
@@ -640,6 +697,8 @@ pub fn run_compare(ctx: &Ctx, rep: &mut Report) {
         rep.set_floor("kind-cells", cells);
     }
     rep.floor("compare:both_valid", 100);
+    rep.floor("compare:non_ascii_operands", 20);
+    rep.floor("compare:same_digits_respelled", 20);
 }
 
 fn replay_stream<V: Variant>(name: &str, data: &[u8], script: &[Ev], rep: &mut Report) {
@@ -667,9 +726,200 @@ pub fn replay(case: &Json, ctx: &Ctx, rep: &mut Report) -> bool {
         rep.inconclusive("replay: the stream data was too large to be stored; re-run the monitor with the recorded seed");
         return true;
     }
+    if case.get("pipe").is_some() {
+        run_pipe(ctx, rep);
+        return true;
+    }
     if case.get("file_size").is_some() || case.get("missing_path").is_some() {
         files(ctx, rep);
         return true;
     }
     false
+}
+
+// ---------------------------------------------------------------------------
+// Real file descriptors: a pipe fed by a slow writer thread while the reading thread is
+// bombarded with signals whose handler is installed without SA_RESTART, so that read(2)
+// really returns EINTR (std's `File::read` reports it as ErrorKind::Interrupted).
+
+#[cfg(all(target_os = "linux", not(miri)))]
+mod realpipe {
+    use std::sync::atomic::{AtomicBool, AtomicU64, Ordering};
+
+    #[repr(C)]
+    pub struct SigAction {
+        pub handler: usize,
+        pub mask: [u64; 16],
+        pub flags: i32,
+        pub restorer: usize,
+    }
+    extern "C" {
+        pub fn pipe(fds: *mut i32) -> i32;
+        pub fn sigaction(signum: i32, act: *const SigAction, old: *mut SigAction) -> i32;
+        pub fn pthread_self() -> usize;
+        pub fn pthread_kill(thread: usize, sig: i32) -> i32;
+    }
+    pub const SIGUSR1: i32 = 10;
+    pub static SIGNALS_HANDLED: AtomicU64 = AtomicU64::new(0);
+    pub static STOP: AtomicBool = AtomicBool::new(false);
+    extern "C" fn on_signal(_sig: i32) {
+        SIGNALS_HANDLED.fetch_add(1, Ordering::Relaxed);
+    }
+    pub fn install_handler() -> bool {
+        let act = SigAction { handler: on_signal as extern "C" fn(i32) as usize, mask: [0; 16], flags: 0, restorer: 0 };
+        unsafe { sigaction(SIGUSR1, &act, std::ptr::null_mut()) == 0 }
+    }
+}
+
+/// A reader wrapper counting what the underlying reader did.
+pub struct CountingReader<R> {
+    pub inner: R,
+    pub reads: u64,
+    pub interrupted: u64,
+    pub short_reads: u64,
+    pub bytes: u64,
+}
+impl<R: Read> Read for CountingReader<R> {
+    fn read(&mut self, buf: &mut [u8]) -> io::Result<usize> {
+        self.reads += 1;
+        match self.inner.read(buf) {
+            Ok(n) => {
+                self.bytes += n as u64;
+                if n > 0 && n < buf.len() {
+                    self.short_reads += 1;
+                }
+                Ok(n)
+            }
+            Err(e) => {
+                if e.kind() == ErrorKind::Interrupted {
+                    self.interrupted += 1;
+                }
+                Err(e)
+            }
+        }
+    }
+}
+
+#[cfg(all(target_os = "linux", not(miri)))]
+pub fn run_pipe(ctx: &Ctx, rep: &mut Report) {
+    use realpipe::*;
+    use std::os::fd::FromRawFd;
+    use std::sync::atomic::Ordering;
+    rep.rule = "real pipes: a writer thread feeds seeded data in small chunks with pauses while a third thread sends SIGUSR1 (handler installed without SA_RESTART) to the hashing thread every few microseconds, so that read(2) genuinely returns EINTR and short counts; hash_stream_for on the pipe must equal hash_buf of the data; a counting wrapper records the interruptions and short reads that really happened; non-trivial = a stream with at least one real EINTR or short read; distinct by fingerprint of the data".into();
+    if !install_handler() {
+        rep.inconclusive("cannot install the signal handler");
+        return;
+    }
+    let n = ctx.n(300, 6_000);
+    for i in 0..n {
+        let mut rng = ctx.rng("c12-pipe", i);
+        let len = match rng.below(6) {
+            0 => rng.range(0, 200) as usize,
+            1 => rng.range(1 << 20, (1 << 20) + 70000) as usize,
+            _ => rng.range(200, 300_000) as usize,
+        };
+        let (data, _) = gen::content(&mut rng, len, None);
+        let chunk = *rng.pick(&[1usize, 3, 7, 64, 1000, 4096, 65536]);
+        let pause_us = *rng.pick(&[0u64, 0, 5, 40]);
+        let mut fds = [0i32; 2];
+        if unsafe { pipe(fds.as_mut_ptr()) } != 0 {
+            rep.inconclusive("pipe() failed");
+            return;
+        }
+        let rd = unsafe { std::fs::File::from_raw_fd(fds[0]) };
+        let mut wr = unsafe { std::fs::File::from_raw_fd(fds[1]) };
+        let reader_tid = unsafe { pthread_self() };
+        STOP.store(false, Ordering::SeqCst);
+        let wdata = data.clone();
+        let writer = std::thread::spawn(move || {
+            use std::io::Write;
+            // at most ~4000 chunks, so tiny chunk sizes apply to the head of the stream only
+            let mut pos = 0usize;
+            let mut writes = 0u64;
+            while pos < wdata.len() {
+                let c = if writes < 4000 { chunk } else { 65536 };
+                let end = (pos + c).min(wdata.len());
+                if wr.write_all(&wdata[pos..end]).is_err() {
+                    break;
+                }
+                pos = end;
+                writes += 1;
+                if pause_us > 0 && writes % 4 == 0 {
+                    std::thread::sleep(std::time::Duration::from_micros(pause_us));
+                }
+            }
+            drop(wr); // EOF
+        });
+        let pinger = std::thread::spawn(move || {
+            while !STOP.load(Ordering::Relaxed) {
+                unsafe {
+                    pthread_kill(reader_tid, SIGUSR1);
+                }
+                std::thread::sleep(std::time::Duration::from_micros(15));
+            }
+        });
+        let mut counting = CountingReader { inner: rd, reads: 0, interrupted: 0, short_reads: 0, bytes: 0 };
+        let got = match i % 5 {
+            0 => guard(|| crate::variant::VNormal::hash_stream(&mut counting).map(|h| h.to_string()).map_err(|e| e.to_string())),
+            1 => guard(|| crate::variant::VShort::hash_stream(&mut counting).map(|h| h.to_string()).map_err(|e| e.to_string())),
+            2 => guard(|| crate::variant::VLong::hash_stream(&mut counting).map(|h| h.to_string()).map_err(|e| e.to_string())),
+            3 => guard(|| crate::variant::VNormal3::hash_stream(&mut counting).map(|h| h.to_string()).map_err(|e| e.to_string())),
+            _ => guard(|| crate::variant::VLong3::hash_stream(&mut counting).map(|h| h.to_string()).map_err(|e| e.to_string())),
+        };
+        STOP.store(true, Ordering::SeqCst);
+        let _ = pinger.join();
+        drop(counting.inner);
+        let _ = writer.join();
+        let exp = match i % 5 {
+            0 => crate::variant::VNormal::hash_buf(&data).map(|h| h.to_string()).map_err(|e| e.to_string()),
+            1 => crate::variant::VShort::hash_buf(&data).map(|h| h.to_string()).map_err(|e| e.to_string()),
+            2 => crate::variant::VLong::hash_buf(&data).map(|h| h.to_string()).map_err(|e| e.to_string()),
+            3 => crate::variant::VNormal3::hash_buf(&data).map(|h| h.to_string()).map_err(|e| e.to_string()),
+            _ => crate::variant::VLong3::hash_buf(&data).map(|h| h.to_string()).map_err(|e| e.to_string()),
+        };
+        rep.eval(1);
+        rep.count("pipe:streams", 1);
+        rep.count("pipe:real_EINTR_seen_by_reader", counting.interrupted);
+        rep.count("pipe:short_reads", counting.short_reads);
+        rep.count("pipe:reads", counting.reads);
+        if counting.interrupted > 0 {
+            rep.count("pipe:streams_with_real_EINTR", 1);
+        }
+        if counting.interrupted > 0 || counting.short_reads > 0 {
+            rep.distinct(fingerprint(&data) ^ i);
+        }
+        let case = Json::obj()
+            .with("variant_index", i % 5)
+            .with("pipe", true)
+            .with("data_len", data.len())
+            .with("chunk", chunk)
+            .with("real_EINTR", counting.interrupted)
+            .with("short_reads", counting.short_reads);
+        match got {
+            Err(p) => rep.violation("pipe|panic", &format!("panic: {} at {}", p.message, p.location), case),
+            Ok(g) => {
+                if g != exp {
+                    rep.violation(
+                        if matches!(&g, Err(e) if e.to_lowercase().contains("interrupt")) { "pipe|interrupted-not-retried" } else { "pipe|differs-from-buffer-hash" },
+                        &format!(
+                            "pipe delivering {} bytes in {}-byte chunks ({} real EINTR, {} short reads): helper returned {:?}, hash_buf gives {:?}",
+                            data.len(), chunk, counting.interrupted, counting.short_reads, g, exp
+                        ),
+                        case,
+                    );
+                }
+            }
+        }
+        if rep.want_sample() && counting.interrupted > 0 {
+            rep.sample(Json::obj().with("data_len", data.len()).with("chunk", chunk).with("real_EINTR", counting.interrupted).with("short_reads", counting.short_reads).with("reads", counting.reads));
+        }
+    }
+    rep.count("pipe:signals_handled", SIGNALS_HANDLED.load(Ordering::Relaxed));
+    rep.floor("pipe:streams_with_real_EINTR", 5);
+    rep.floor("pipe:short_reads", 50);
+}
+
+#[cfg(not(all(target_os = "linux", not(miri))))]
+pub fn run_pipe(_ctx: &Ctx, rep: &mut Report) {
+    rep.inconclusive("the real-pipe monitor needs Linux and a native run");
 }
